@@ -1,4 +1,5 @@
 """C04 - decoders and parsers are total and memory safe on arbitrary input (DESIGN.md section 4, C04)."""
+import os
 from sa import rules as RU
 from sa.awslib import AwsHooks, in_bounds, MEMFNS as MEMFNS_, ASSUMPTIONS as LIB_ASSUMPTIONS
 from sa.bounds import access_sites, addr_size, EntryExtents
@@ -11,6 +12,7 @@ DECIDED = [
     "BOUND: every explicit read of input bytes and every write into an output buffer in the library's own parsers (XML, URI, date-time, hex/base64/UTF-8, UUID, host utils, unsigned-integer parsing) is inside the input view / output storage for every input (NUM); a pointer difference converted to an unsigned length that could be negative leaves the following accesses unproved and is reported there",
     "CSTR: a local character array handed to a C-string consumer (sscanf / strtol / strlen ...) is NUL-terminated for every input: zero-initialised, every copy into it stops before its last byte (NUM), and its address goes to no other callee",
     "PROGRESS: every input-driven loop either leaves or strictly moves a cursor/index on every path through its body",
+    "LOOP-ERR: in the CBOR decoder's loops over a count declared by the document (array / map items) a failing item leaves the loop in the same iteration, so a truncated document cannot keep the loop running for the declared count",
     "RECUR: every recursion reachable from a parser entry point carries a depth counter tested against a limit",
     "ERRCHAN: every `return AWS_OP_ERR` of an int-returning parser function follows aws_raise_error or the failure of a callee that raised",
     "ABORT: no abort()/fatal assertion in a parser depends on input bytes (only on API misuse and internal state)",
@@ -20,7 +22,7 @@ DECIDED = [
 ]
 from rules import cbor_stream as _cs
 DECIDED = DECIDED + list(_cs.DECIDED)
-NOT_DECIDED = ["internals of the vendored cJSON beyond its nesting limit and depth accounting, and of libcbor beyond the item decoder's reads (STREAM)", "content-dependent facts (which byte values occur where)", "libc calls (strtod, sscanf, strftime)"]
+NOT_DECIDED = ["internals of the vendored cJSON beyond its nesting limit, depth accounting and stack scratch buffers, and of libcbor beyond the item decoder's reads (STREAM)", "content-dependent facts (which byte values occur where)", "libc calls (strtod, sscanf, strftime)"]
 ASSUMPTIONS = list(LIB_ASSUMPTIONS) + ["aws_byte_cursor_advance/advance_nospec succeed iff len <= cursor->len (C01)", "a real memory view is shorter than PTRDIFF_MAX (used only for PROGRESS)"]
 
 FILES = ["source/xml_parser.c", "source/uri.c", "source/date_time.c", "source/encoding.c", "source/uuid.c", "source/host_utils.c", "source/json.c", "source/cbor.c"]
@@ -399,6 +401,8 @@ def analyse(ctx, replace=None, only=None, config="ship", hooks=None):
             aborts(R, P, fns)
         if "WRAPPER" in want:
             wrappers(R, P)
+        if "LOOP-ERR" in want:
+            loop_errors(R, P, fns)
         if "CSTR" in want:
             cstr_terminated(R, P, fns, hooks)
         return
@@ -411,6 +415,7 @@ def analyse(ctx, replace=None, only=None, config="ship", hooks=None):
     errchan(R, P, fns)
     aborts(R, P, fns)
     wrappers(R, P)
+    loop_errors(R, P, fns)
     cstr_terminated(R, P, fns, hooks)
     # the scalar shell of the vectorised base64 codec (bounds of its vector loads/stores and bounce buffers): rules/C05.py
     from rules import C05
@@ -421,11 +426,42 @@ def analyse(ctx, replace=None, only=None, config="ship", hooks=None):
         cjson_nesting(ctx, R, config, replace)
 
 
+def cjson_local_arrays(R, PJ):
+    """BOUND (vendored JSON parser, its stack scratch buffers only): every subscript of and every sized libc write into a local
+    array of a cJSON.c function - the number scanner's 64-byte copy of the token and its terminator, the printer's number
+    buffer - stays inside the array for every input (NUM).  The parser's reads of the document are not decided here."""
+    from sa.bounds import check_function
+    n_ok = 0
+    for f in sorted((g for g in PJ.by_key.values() if getattr(g, "blocks", None) and os.path.basename(g.file) == "cJSON.c"), key=lambda g: g.line):
+        arrs = set()
+        for b in f.blocks.values():
+            for el in b.elems:
+                if el["k"] == "decl":
+                    for v in el["vars"]:
+                        if "t" in v and f.unit.types[v["t"]].get("arr") is not None:
+                            arrs.add(v["n"])
+        if not arrs:
+            continue
+        R.fn(f)
+        res, _num = check_function(f, PJ)
+        for r in res:
+            if r["status"] == "limit":
+                R.broken("cJSON local arrays: %s: %s" % (f.name, r["detail"]))
+                continue
+            if r["status"] not in ("ok", "fail") or not any(RU.uses_var(f, r["node"], a) for a in arrs):
+                continue
+            n_ok += r["status"] == "ok"
+            R.check(r["status"] == "ok", "BOUND", "cjson:%s:%s:%s" % (f.name, r["kind"], r["expr"][:50]), "source/external/cJSON.c:%d in %s()" % (r["line"], f.name), r["detail"][:160],
+                    "an access to a local array of the JSON parser is not inside it for every document: %s" % r["detail"][:300])
+    R.require(n_ok >= 8, "only %d accesses to cJSON's local arrays decided (confirmed: 11)" % n_ok)
+
+
 def cjson_nesting(ctx, R, config="ship", replace=None):
     """the vendored JSON parser's recursion is bounded: limit tested before descent, and the depth counter is balanced so
     that the limit means nesting depth (a counter that leaks or is decremented twice makes the limit meaningless)"""
     from rules import cjson_depth
     PJ = ctx.program([cjson_depth.CJ], config, replace=replace)
+    cjson_local_arrays(R, PJ)
     cjson_depth.nesting_limit(R, PJ, "RECUR")
     cjson_depth.depth_balance(R, PJ, "RECUR", names=("parse_array", "parse_object"))
 
@@ -741,6 +777,119 @@ def aborts(R, P, fns):
     R.notes.append("%d fatal-assert/abort sites in parser functions reviewed against the API-misuse table" % n)
 
 
+def _fallible(P, name, memo):
+    """does the named program function return int and have a failing return (aws_raise_error / a non-zero constant)?"""
+    if name not in memo:
+        memo[name] = False
+        g = P.fn(name)
+        if g is not None and getattr(g, "blocks", None) and "w" in (g.rettype() or {}) and not (g.rettype() or {}).get("bool"):
+            for r in g.returns():
+                if not r.node.get("a"):
+                    continue
+                v = RU.uncast(g, r.node["a"][0])
+                cv = g.is_const(v) if v is not None else None
+                if (cv is not None and cv != 0) or (v is not None and v["k"] == "call" and v.get("callee") == "aws_raise_error"):
+                    memo[name] = True
+                    break
+    return memo[name]
+
+
+def loop_errors(R, P, fns):
+    """LOOP-ERR: inside a loop whose trip count is declared by the input (an element count decoded from the document, not the
+    number of bytes present), the failure of a consuming callee leaves the loop in the same iteration: otherwise a truncated
+    document keeps the loop running for the declared count (up to 2^64 iterations) although nothing more can be consumed."""
+    from sa.cfg import edges, dominators
+    memo, n = {}, 0
+    for f in fns:
+        if not f.file.endswith("source/cbor.c"):
+            continue
+        dom = dominators(f)
+        preds = f.preds()
+        loops = {}
+        for b in dom:
+            for s_, _, _ in edges(f, b):
+                if s_ in dom.get(b, ()):
+                    body, st = {s_, b}, [b]
+                    while st:
+                        x = st.pop()
+                        if x == s_:
+                            continue
+                        for p_ in preds.get(x, []):
+                            if p_ not in body and p_ in dom:
+                                body.add(p_)
+                                st.append(p_)
+                    loops.setdefault(s_, set()).update(body)
+        for h, body in sorted(loops.items()):
+            for e in f.all_events():
+                if e.kind != "call" or e.blk not in body or not _fallible(P, e.node.get("callee") or "", memo):
+                    continue
+                # the local that receives the status, if any
+                holder = None
+                for el in f.blocks[e.blk].elems:
+                    if el["k"] == "decl":
+                        for v in el["vars"]:
+                            if v.get("init") is not None and RU.uncast(f, v["init"]) is e.node:
+                                holder = v["n"]
+                    elif el["k"] == "bin" and el["op"] == "=" and RU.uncast(f, el["a"][1]) is e.node:
+                        l_ = f.d(el["a"][0])
+                        if l_ is not None and l_["k"] == "var":
+                            holder = l_["n"]
+
+                def arm(cond, pol):
+                    """'ok' / 'err' when the branch decides the status, else None"""
+                    if not isinstance(pol, bool):
+                        return None
+                    t = RU.cmp_norm(f, cond, pol)
+                    if not t:
+                        return None
+                    x = RU.uncast(f, t[0])
+                    if x is None or not (x is e.node or (holder and x["k"] == "var" and x["n"] == holder)):
+                        return None
+                    c = 0 if t[2] is None else f.is_const(t[2])
+                    if c is None:
+                        return None
+                    if t[1] == "==":
+                        return "ok" if c == 0 else "err"
+                    if t[1] == "!=":
+                        return "err" if c == 0 else "ok"
+                    if t[1] in ("<", ">"):
+                        return "err" if c == 0 else None
+                    return None
+                seen, work, spins = set(), [e.blk], None
+                first = True
+                while work and spins is None:
+                    b = work.pop()
+                    if b in seen and not first:
+                        continue
+                    first = False
+                    seen.add(b)
+                    for s_, cond, pol in edges(f, b):
+                        a_ = arm(cond, pol) if cond is not None else None
+                        if a_ == "ok":
+                            continue  # tested and fine: what follows is not the failure's path
+                        if a_ == "err":
+                            # the failure's path: it must not come back to the header inside the loop
+                            w2, sn2 = [s_], set()
+                            while w2:
+                                y = w2.pop()
+                                if y == h:
+                                    spins = "after the failure was seen the loop goes on"
+                                    break
+                                if y in sn2 or y not in body:
+                                    continue
+                                sn2.add(y)
+                                w2.extend(z for z, _, _ in edges(f, y))
+                            continue
+                        if s_ == h:
+                            spins = "the next iteration starts before the result was looked at"
+                        elif s_ in body and s_ not in seen:
+                            work.append(s_)
+                n += 1
+                R.check(spins is None, "LOOP-ERR", "%s:%s@%s" % (f.name, e.node.get("callee"), e.node.get("loc", [0])[0]), where(f, e), "a failing %s leaves the loop in the same iteration" % e.node.get("callee"),
+                        "%s fails and %s: for a truncated document the loop runs for the element count the document declares (up to 2^64 iterations) instead of stopping at the first failure" % (e.node.get("callee"), spins))
+    R.require(n >= 3, "only %d fallible calls inside count-driven decoder loops found (confirmed: 4 in aws_cbor_decoder_consume_next_whole_data_item)" % n)
+
+
 def wrappers(R, P):
     f = P.fn("aws_json_value_new_from_string")
     if R.require(f is not None, "aws_json_value_new_from_string not found"):
@@ -775,11 +924,16 @@ def wrappers(R, P):
 
 
 MUTANTS = [dict(_m, scope={"stream": True}) for _m in _cs.MUTANTS] + [
+    {"name": "json-number-copy-fills-the-whole-scratch-buffer", "file": "source/external/cJSON.c", "expect": "BOUND", "scope": {"cjson": True},
+     "old": "(i < (sizeof(number_c_string) - 1)) &&", "new": "(i < sizeof(number_c_string)) &&"},
     {"name": "json-empty-object-decrements-twice", "file": "source/external/cJSON.c", "expect": "RECUR", "scope": {"cjson": True},
      "old": "        goto success; /* empty object */", "new": "        input_buffer->depth--;\n        goto success; /* empty object */"},
     {"name": "json-object-limit-after-descent", "file": "source/external/cJSON.c", "expect": "RECUR", "scope": {"cjson": True},
      "old": "    if (input_buffer->depth >= CJSON_NESTING_LIMIT)\n    {\n        return false; /* to deeply nested */\n    }\n    input_buffer->depth++;\n\n    if (cannot_access_at_index(input_buffer, 0) || (buffer_at_offset(input_buffer)[0] != '{'))",
      "new": "    if (input_buffer->depth > CJSON_NESTING_LIMIT + CJSON_NESTING_LIMIT * 1000000)\n    {\n        return false; /* to deeply nested */\n    }\n    input_buffer->depth++;\n\n    if (cannot_access_at_index(input_buffer, 0) || (buffer_at_offset(input_buffer)[0] != '{'))"},
+    {"name": "cbor-array-item-failure-does-not-stop-the-count-loop", "file": "source/cbor.c", "expect": "LOOP-ERR", "scope": {"files": ["source/cbor.c"], "rules": ["LOOP-ERR"]},
+     "old": "            for (uint64_t i = 0; i < num_array_item; i++) {\n                /* item */\n                if (aws_cbor_decoder_consume_next_whole_data_item(decoder)) {\n                    return AWS_OP_ERR;\n                }\n            }",
+     "new": "            int item_result = AWS_OP_SUCCESS;\n            for (uint64_t i = 0; i < num_array_item; i++) {\n                item_result = aws_cbor_decoder_consume_next_whole_data_item(decoder);\n            }\n            if (item_result) {\n                return AWS_OP_ERR;\n            }"},
     {"name": "ipv4-copy-fills-whole-buffer", "file": "source/host_utils.c", "expect": "CSTR", "scope": {"files": ["source/host_utils.c"], "rules": ["CSTR"]},
      "old": "    if (host.len > AWS_IPV4_STR_LEN - 1) {", "new": "    if (host.len > AWS_IPV4_STR_LEN) {"},
     {"name": "uuid-copy-not-zeroed", "file": "source/uuid.c", "expect": "CSTR", "scope": {"files": ["source/uuid.c"], "rules": ["CSTR"]},
